@@ -1,15 +1,1120 @@
 package main
 
+// Replay of a solver counter-model against the real code: the model is projected
+// on the function's inputs, turned into Go literals, and a generated in-package
+// test (injected with -overlay, nothing is written to /repo) calls the real
+// function under recover and evaluates the compiled postcondition natively.
+
+import (
+	"bytes"
+	"context"
+	"encoding/json"
+	"fmt"
+	"go/ast"
+	"go/token"
+	"go/types"
+	"math/big"
+	"os"
+	"os/exec"
+	"path/filepath"
+	"sort"
+	"strconv"
+	"strings"
+	"time"
+
+	"golang.org/x/tools/go/ssa"
+)
+
 type replayResult struct {
 	Confirmed bool              `json:"confirmed"`
 	Inputs    map[string]string `json:"inputs,omitempty"`
 	Test      string            `json:"test,omitempty"`
+	PkgDir    string            `json:"pkg_dir,omitempty"`
 	Output    string            `json:"output,omitempty"`
 	Note      string            `json:"note,omitempty"`
 }
 
-func (eng *Engine) replay(o *Obligation) replayResult {
-	return replayResult{Note: "replay not implemented for this obligation kind"}
+// ---------------------------------------------------------------------------
+// s-expressions (solver output)
+
+type sx struct {
+	atom string
+	list []*sx
 }
 
-func replayFile(path, repo string) int { return 0 }
+func parseSx(s string) []*sx {
+	var out []*sx
+	i := 0
+	var parse func() *sx
+	skip := func() {
+		for i < len(s) && (s[i] == ' ' || s[i] == '\n' || s[i] == '\t' || s[i] == '\r') {
+			i++
+		}
+	}
+	parse = func() *sx {
+		skip()
+		if i >= len(s) {
+			return nil
+		}
+		if s[i] == '(' {
+			i++
+			n := &sx{list: []*sx{}}
+			for {
+				skip()
+				if i >= len(s) {
+					return n
+				}
+				if s[i] == ')' {
+					i++
+					return n
+				}
+				c := parse()
+				if c == nil {
+					return n
+				}
+				n.list = append(n.list, c)
+			}
+		}
+		if s[i] == '"' {
+			j := i + 1
+			for j < len(s) && s[j] != '"' {
+				j++
+			}
+			a := s[i:min(j+1, len(s))]
+			i = min(j+1, len(s))
+			return &sx{atom: a}
+		}
+		if s[i] == '|' {
+			j := i + 1
+			for j < len(s) && s[j] != '|' {
+				j++
+			}
+			a := s[i:min(j+1, len(s))]
+			i = min(j+1, len(s))
+			return &sx{atom: a}
+		}
+		j := i
+		for j < len(s) && s[j] != ' ' && s[j] != '\n' && s[j] != '\t' && s[j] != '(' && s[j] != ')' {
+			j++
+		}
+		a := s[i:j]
+		i = j
+		return &sx{atom: a}
+	}
+	for {
+		skip()
+		if i >= len(s) {
+			break
+		}
+		if s[i] == ')' {
+			i++
+			continue
+		}
+		n := parse()
+		if n == nil {
+			break
+		}
+		out = append(out, n)
+	}
+	return out
+}
+
+func (n *sx) String() string {
+	if n.list == nil {
+		return n.atom
+	}
+	parts := make([]string, len(n.list))
+	for i, c := range n.list {
+		parts[i] = c.String()
+	}
+	return "(" + strings.Join(parts, " ") + ")"
+}
+
+// numeric value of a model term (Int or Real) as a rational.
+func sxRat(n *sx) (*big.Rat, bool) {
+	if n.list == nil {
+		a := strings.TrimSuffix(n.atom, "?")
+		r, ok := new(big.Rat).SetString(a)
+		return r, ok
+	}
+	if len(n.list) == 2 && n.list[0].atom == "-" {
+		r, ok := sxRat(n.list[1])
+		if !ok {
+			return nil, false
+		}
+		return r.Neg(r), true
+	}
+	if len(n.list) == 3 && n.list[0].atom == "/" {
+		a, ok1 := sxRat(n.list[1])
+		b, ok2 := sxRat(n.list[2])
+		if !ok1 || !ok2 || b.Sign() == 0 {
+			return nil, false
+		}
+		return a.Quo(a, b), true
+	}
+	if len(n.list) == 2 && n.list[0].atom == "to_real" {
+		return sxRat(n.list[1])
+	}
+	return nil, false
+}
+
+// ---------------------------------------------------------------------------
+// model access
+
+type modelQuery struct {
+	eng    *Engine
+	o      *Obligation
+	script string
+	cache  map[string]*sx
+	failed bool
+	note   string
+}
+
+func (m *modelQuery) solverCmd(file string) []string {
+	switch m.o.Res.Solver {
+	case "cvc5":
+		return []string{"cvc5", "--tlimit=20000", "--produce-models", file}
+	case "z3":
+		return []string{"z3", "-T:20", file}
+	default:
+		return []string{"z3-new", "-T:20", file}
+	}
+}
+
+// preferSmall looks for a counter-model with small inputs (short slices and strings,
+// small integers): such models reproduce on the real code without truncation.
+func (m *modelQuery) preferSmall(fc *fnCtx, fn *ssa.Function) {
+	names := paramNames(fn)
+	tiers := [][3]int64{{3, 4, 8}, {6, 12, 1 << 20}}
+	for _, tier := range tiers {
+		var cons []string
+		var add func(term string, t types.Type, depth int)
+		add = func(term string, t types.Type, depth int) {
+			switch u := t.Underlying().(type) {
+			case *types.Slice:
+				cons = append(cons, fmt.Sprintf("(assert (<= (sl.len %s) %d))", term, tier[0]))
+			case *types.Basic:
+				switch {
+				case u.Info()&types.IsString != 0:
+					cons = append(cons, fmt.Sprintf("(assert (<= (s.len %s) %d))", term, tier[1]))
+				case u.Info()&types.IsInteger != 0:
+					cons = append(cons, fmt.Sprintf("(assert (and (<= (- %d) %s) (<= %s %d)))", tier[2], term, term, tier[2]))
+				}
+			case *types.Struct:
+				if depth > 1 {
+					return
+				}
+				ss := fc.S().structOf(t)
+				for i, f := range ss.fields {
+					add("("+f+" "+term+")", ss.ftypes[i], depth+1)
+				}
+			}
+		}
+		for i, p := range fn.Params {
+			if v, ok := fc.params[names[i]]; ok {
+				add(v.T, p.Type(), 0)
+			}
+		}
+		if len(cons) == 0 {
+			return
+		}
+		script := strings.Replace(m.script, "(check-sat)", strings.Join(cons, "\n")+"\n(check-sat)", 1)
+		file := filepath.Join(m.eng.tmpdir, "replay-small-"+sanitize(m.o.Name)+".smt2")
+		os.WriteFile(file, []byte(script), 0o644)
+		argv := m.solverCmd(file)
+		ctx, cancel := context.WithTimeout(context.Background(), 25*time.Second)
+		out, _ := exec.CommandContext(ctx, argv[0], argv[1:]...).CombinedOutput()
+		cancel()
+		for _, ln := range strings.Split(string(out), "\n") {
+			ln = strings.TrimSpace(ln)
+			if ln == "" || strings.HasPrefix(ln, "WARNING") {
+				continue
+			}
+			if ln == "sat" {
+				m.script = script
+				return
+			}
+			break
+		}
+	}
+}
+
+// get evaluates a batch of terms in the counter-model.
+func (m *modelQuery) get(terms []string) {
+	var need []string
+	for _, t := range terms {
+		if _, ok := m.cache[t]; !ok {
+			need = append(need, t)
+		}
+	}
+	if len(need) == 0 || m.failed {
+		return
+	}
+	var b strings.Builder
+	b.WriteString(m.script)
+	for _, t := range need {
+		fmt.Fprintf(&b, "(get-value (%s))\n", t)
+	}
+	file := filepath.Join(m.eng.tmpdir, "replay-"+sanitize(m.o.Name)+".smt2")
+	os.WriteFile(file, []byte(b.String()), 0o644)
+	argv := m.solverCmd(file)
+	ctx, cancel := context.WithTimeout(context.Background(), 30*time.Second)
+	defer cancel()
+	out, _ := exec.CommandContext(ctx, argv[0], argv[1:]...).CombinedOutput()
+	txt := string(out)
+	// drop warnings; first token must be sat
+	var lines []string
+	for _, ln := range strings.Split(txt, "\n") {
+		if strings.HasPrefix(strings.TrimSpace(ln), "WARNING") {
+			continue
+		}
+		lines = append(lines, ln)
+	}
+	items := parseSx(strings.Join(lines, "\n"))
+	if len(items) == 0 || items[0].atom != "sat" {
+		m.failed = true
+		m.note = "model query did not return sat again: " + firstLines(txt, 2)
+		return
+	}
+	items = items[1:]
+	for i, t := range need {
+		if i >= len(items) {
+			break
+		}
+		it := items[i]
+		// ((term value))
+		if it.list != nil && len(it.list) == 1 && it.list[0].list != nil && len(it.list[0].list) == 2 {
+			m.cache[t] = it.list[0].list[1]
+		}
+	}
+}
+
+func (m *modelQuery) val(t string) *sx {
+	if v, ok := m.cache[t]; ok {
+		return v
+	}
+	m.get([]string{t})
+	return m.cache[t]
+}
+
+func (m *modelQuery) intVal(t string) (int64, bool) {
+	v := m.val(t)
+	if v == nil {
+		return 0, false
+	}
+	r, ok := sxRat(v)
+	if !ok || !r.IsInt() || !r.Num().IsInt64() {
+		return 0, false
+	}
+	return r.Num().Int64(), true
+}
+
+// ---------------------------------------------------------------------------
+// Go literal construction
+
+type litBuilder struct {
+	m       *modelQuery
+	fc      *fnCtx
+	pkg     *types.Package
+	imports map[string]string // path -> name
+	approx  []string
+	ptrVars map[int64]string
+	decls   []string
+	nvar    int
+}
+
+func (lb *litBuilder) typeExpr(t types.Type) string {
+	return types.TypeString(t, func(p *types.Package) string {
+		if p == lb.pkg {
+			return ""
+		}
+		lb.imports[p.Path()] = p.Name()
+		return p.Name()
+	})
+}
+
+func exportedOrLocal(t types.Type, pkg *types.Package) bool {
+	ok := true
+	var visit func(t types.Type)
+	visit = func(t types.Type) {
+		switch u := t.(type) {
+		case *types.Named:
+			if u.Obj().Pkg() != nil && u.Obj().Pkg() != pkg && !u.Obj().Exported() {
+				ok = false
+			}
+		case *types.Pointer:
+			visit(u.Elem())
+		case *types.Slice:
+			visit(u.Elem())
+		case *types.Array:
+			visit(u.Elem())
+		}
+	}
+	visit(t)
+	return ok
+}
+
+func (lb *litBuilder) heapEntry(name, sort string) string {
+	st := &State{heapBase: lb.fc.entry.heapBase, heap: lb.fc.entry.heap}
+	return lb.fc.heapGet(st, name, sort)
+}
+
+const maxStrLen = 24
+const maxSliceLen = 6
+
+// lit builds a Go expression for the model value of SMT term `term` of Go type t.
+func (lb *litBuilder) lit(term string, t types.Type, depth int) string {
+	S := lb.fc.S()
+	if depth > 4 {
+		lb.approx = append(lb.approx, "depth limit at "+lb.typeExpr(t))
+		return lb.zero(t)
+	}
+	switch u := t.Underlying().(type) {
+	case *types.Basic:
+		switch {
+		case u.Info()&types.IsBoolean != 0:
+			v := lb.m.val(term)
+			if v != nil && v.atom == "true" {
+				return lb.conv(t, "true")
+			}
+			return lb.conv(t, "false")
+		case u.Info()&types.IsInteger != 0:
+			n, ok := lb.m.intVal(term)
+			if !ok {
+				lb.approx = append(lb.approx, "non-integer model value for "+term)
+			}
+			return lb.conv(t, strconv.FormatInt(n, 10))
+		case u.Info()&types.IsFloat != 0:
+			v := lb.m.val(term)
+			if v == nil {
+				return lb.conv(t, "0")
+			}
+			r, ok := sxRat(v)
+			if !ok {
+				lb.approx = append(lb.approx, "irrational/unknown real model value "+v.String())
+				return lb.conv(t, "0")
+			}
+			f, _ := r.Float64()
+			return lb.conv(t, strconv.FormatFloat(f, 'g', -1, 64))
+		case u.Info()&types.IsString != 0:
+			n, _ := lb.m.intVal("(s.len " + term + ")")
+			if n > maxStrLen {
+				lb.approx = append(lb.approx, fmt.Sprintf("string of length %d truncated to %d", n, maxStrLen))
+				n = maxStrLen
+			}
+			var terms []string
+			for i := int64(0); i < n; i++ {
+				terms = append(terms, fmt.Sprintf("(s.at %s %d)", term, i))
+			}
+			lb.m.get(terms)
+			bs := make([]byte, 0, n)
+			for _, tt := range terms {
+				c, _ := lb.m.intVal(tt)
+				bs = append(bs, byte(c))
+			}
+			return lb.conv(t, strconv.Quote(string(bs)))
+		}
+	case *types.Struct:
+		if !exportedOrLocal(t, lb.pkg) {
+			lb.approx = append(lb.approx, "unexported foreign type "+typeKey(t))
+			return lb.zero(t)
+		}
+		ss := S.structOf(t)
+		var parts []string
+		for i, f := range ss.fields {
+			fld := u.Field(i)
+			if fld.Pkg() != nil && fld.Pkg() != lb.pkg && !fld.Exported() {
+				continue // cannot set; left zero
+			}
+			v := lb.lit("("+f+" "+term+")", fld.Type(), depth+1)
+			if v == lb.zero(fld.Type()) {
+				continue
+			}
+			parts = append(parts, fld.Name()+": "+v)
+		}
+		return lb.typeExpr(t) + "{" + strings.Join(parts, ", ") + "}"
+	case *types.Pointer:
+		p, _ := lb.m.intVal(term)
+		if p == 0 {
+			return "nil"
+		}
+		if v, ok := lb.ptrVars[p]; ok {
+			return v
+		}
+		et := u.Elem()
+		if !exportedOrLocal(et, lb.pkg) {
+			lb.approx = append(lb.approx, "pointer to unexported foreign type "+typeKey(et))
+			return "nil"
+		}
+		name := fmt.Sprintf("p%d", len(lb.ptrVars))
+		lb.ptrVars[p] = name
+		var init string
+		if ss := S.structOf(et); ss != nil {
+			st := et.Underlying().(*types.Struct)
+			var parts []string
+			for i := range ss.fields {
+				fld := st.Field(i)
+				if fld.Pkg() != nil && fld.Pkg() != lb.pkg && !fld.Exported() {
+					continue
+				}
+				hn, hs := lb.fc.heapFieldName(et, i)
+				h := lb.heapEntry(hn, hs)
+				v := lb.lit(fmt.Sprintf("(select %s %d)", h, p), fld.Type(), depth+1)
+				if v == lb.zero(fld.Type()) {
+					continue
+				}
+				parts = append(parts, fld.Name()+": "+v)
+			}
+			init = "&" + lb.typeExpr(et) + "{" + strings.Join(parts, ", ") + "}"
+		} else {
+			hn, hs := lb.fc.heapPtrName(et)
+			h := lb.heapEntry(hn, hs)
+			lb.nvar++
+			tmp := fmt.Sprintf("pv%d", lb.nvar)
+			lb.decls = append(lb.decls, fmt.Sprintf("%s := %s", tmp, lb.lit(fmt.Sprintf("(select %s %d)", h, p), et, depth+1)))
+			init = "&" + tmp
+		}
+		lb.decls = append(lb.decls, fmt.Sprintf("%s := %s", name, init))
+		return name
+	case *types.Slice:
+		base, _ := lb.m.intVal("(sl.base " + term + ")")
+		n, _ := lb.m.intVal("(sl.len " + term + ")")
+		if base == 0 {
+			return lb.zero(t)
+		}
+		if n > maxSliceLen {
+			lb.approx = append(lb.approx, fmt.Sprintf("slice of length %d truncated to %d", n, maxSliceLen))
+			n = maxSliceLen
+		}
+		off, _ := lb.m.intVal("(sl.off " + term + ")")
+		hn, hs := lb.fc.heapElemName(u.Elem())
+		h := lb.heapEntry(hn, hs)
+		var parts []string
+		for i := int64(0); i < n; i++ {
+			parts = append(parts, lb.lit(fmt.Sprintf("(select (select %s %d) %d)", h, base, off+i), u.Elem(), depth+1))
+		}
+		return lb.typeExpr(t) + "{" + strings.Join(parts, ", ") + "}"
+	case *types.Array:
+		var parts []string
+		for i := int64(0); i < u.Len() && i < 16; i++ {
+			parts = append(parts, lb.lit(fmt.Sprintf("(select %s %d)", term, i), u.Elem(), depth+1))
+		}
+		return lb.typeExpr(t) + "{" + strings.Join(parts, ", ") + "}"
+	case *types.Interface:
+		tag, _ := lb.m.intVal("(if.tag " + term + ")")
+		if tag == 0 {
+			return "nil"
+		}
+		ct := S.tagType(int(tag))
+		if ct == nil {
+			lb.approx = append(lb.approx, fmt.Sprintf("interface value with unknown dynamic type tag %d", tag))
+			return "nil"
+		}
+		if named, ok := ct.(*types.Named); ok && named.Obj().Pkg() != nil && named.Obj().Pkg().Path() == modulePath+"/css/properties" && named.Obj().Name() == "special" {
+			lb.imports[named.Obj().Pkg().Path()] = "properties"
+			return "properties.AutoF"
+		}
+		if !exportedOrLocal(ct, lb.pkg) {
+			lb.approx = append(lb.approx, "interface holding unexported foreign type "+typeKey(ct))
+			return "nil"
+		}
+		var inner string
+		if pointerLike(ct) {
+			inner = lb.lit("(if.val "+term+")", ct, depth+1)
+		} else {
+			_, unbox := S.Box(ct)
+			inner = lb.lit("("+unbox+" (if.val "+term+"))", ct, depth+1)
+		}
+		return lb.typeExpr(t) + "(" + inner + ")"
+	}
+	lb.approx = append(lb.approx, "unsupported input type "+typeKey(t))
+	return lb.zero(t)
+}
+
+func (lb *litBuilder) conv(t types.Type, lit string) string {
+	if _, ok := t.(*types.Basic); ok {
+		b := t.(*types.Basic)
+		switch b.Kind() {
+		case types.Int, types.String, types.Bool, types.Float64, types.UntypedInt, types.UntypedFloat, types.UntypedString, types.UntypedBool:
+			if b.Kind() == types.Float64 && !strings.ContainsAny(lit, ".e") {
+				return lit + ".0"
+			}
+			return lit
+		}
+	}
+	return lb.typeExpr(t) + "(" + lit + ")"
+}
+
+func (lb *litBuilder) zero(t types.Type) string {
+	switch u := t.Underlying().(type) {
+	case *types.Basic:
+		switch {
+		case u.Info()&types.IsBoolean != 0:
+			return lb.conv(t, "false")
+		case u.Info()&types.IsString != 0:
+			return lb.conv(t, `""`)
+		default:
+			return lb.conv(t, "0")
+		}
+	case *types.Struct, *types.Array:
+		if !exportedOrLocal(t, lb.pkg) {
+			return "*new(" + lb.typeExpr(t) + ")"
+		}
+		return lb.typeExpr(t) + "{}"
+	}
+	return "nil"
+}
+
+// ---------------------------------------------------------------------------
+// specification -> Go source
+
+type goSpec struct {
+	eng   *Engine
+	lets  map[string]ast.Expr
+	olds  []string // hoisted old(...) expressions, in Go
+	bound map[string]string
+	fail  string
+	pkg   *ssa.Package
+	names map[string]string // spec identifier -> Go variable
+}
+
+func (g *goSpec) expr(x ast.Expr) string {
+	switch n := x.(type) {
+	case *ast.ParenExpr:
+		return "(" + g.expr(n.X) + ")"
+	case *ast.BasicLit:
+		return n.Value
+	case *ast.Ident:
+		if v, ok := g.bound[n.Name]; ok {
+			return v
+		}
+		if ex, ok := g.lets[n.Name]; ok {
+			return "(" + g.expr(ex) + ")"
+		}
+		if v, ok := g.names[n.Name]; ok {
+			return v
+		}
+		return n.Name
+	case *ast.SelectorExpr:
+		return g.expr(n.X) + "." + n.Sel.Name
+	case *ast.StarExpr:
+		return "(*" + g.expr(n.X) + ")"
+	case *ast.UnaryExpr:
+		return n.Op.String() + g.expr(n.X)
+	case *ast.BinaryExpr:
+		a, b := g.expr(n.X), g.expr(n.Y)
+		switch n.Op {
+		case token.EQL:
+			return "verifEq(" + a + ", " + b + ")"
+		case token.NEQ:
+			return "!verifEq(" + a + ", " + b + ")"
+		}
+		return "(" + a + " " + n.Op.String() + " " + b + ")"
+	case *ast.IndexExpr:
+		return g.expr(n.X) + "[" + g.expr(n.Index) + "]"
+	case *ast.SliceExpr:
+		s := g.expr(n.X) + "["
+		if n.Low != nil {
+			s += g.expr(n.Low)
+		}
+		s += ":"
+		if n.High != nil {
+			s += g.expr(n.High)
+		}
+		return s + "]"
+	case *ast.CompositeLit:
+		var parts []string
+		for _, e := range n.Elts {
+			if kv, ok := e.(*ast.KeyValueExpr); ok {
+				parts = append(parts, g.expr(kv.Key)+": "+g.expr(kv.Value))
+			} else {
+				parts = append(parts, g.expr(e))
+			}
+		}
+		return g.typeSrc(n.Type) + "{" + strings.Join(parts, ", ") + "}"
+	case *ast.TypeAssertExpr:
+		return g.expr(n.X) + ".(" + g.typeSrc(n.Type) + ")"
+	case *ast.CallExpr:
+		return g.call(n)
+	}
+	g.fail = fmt.Sprintf("unsupported expression %T", x)
+	return "false"
+}
+
+func (g *goSpec) typeSrc(x ast.Expr) string {
+	switch n := x.(type) {
+	case *ast.Ident:
+		return n.Name
+	case *ast.SelectorExpr:
+		return g.typeSrc(n.X) + "." + n.Sel.Name
+	case *ast.StarExpr:
+		return "*" + g.typeSrc(n.X)
+	case *ast.ArrayType:
+		if n.Len == nil {
+			return "[]" + g.typeSrc(n.Elt)
+		}
+		return "[" + g.expr(n.Len) + "]" + g.typeSrc(n.Elt)
+	case *ast.ParenExpr:
+		return "(" + g.typeSrc(n.X) + ")"
+	}
+	g.fail = "unsupported type expression"
+	return "int"
+}
+
+func (g *goSpec) call(n *ast.CallExpr) string {
+	if id, ok := n.Fun.(*ast.Ident); ok {
+		switch id.Name {
+		case "$imp":
+			return "(!(" + g.expr(n.Args[0]) + ") || (" + g.expr(n.Args[1]) + "))"
+		case "$iff":
+			return "((" + g.expr(n.Args[0]) + ") == (" + g.expr(n.Args[1]) + "))"
+		case "old":
+			// hoisted: evaluated before the call with the same inputs
+			inner := g.expr(n.Args[0])
+			g.olds = append(g.olds, inner)
+			return fmt.Sprintf("verifOld%d", len(g.olds)-1)
+		case "forall", "exists":
+			iv := n.Args[0].(*ast.Ident).Name
+			saved := g.bound[iv]
+			g.bound[iv] = iv
+			body := g.expr(n.Args[3])
+			if saved == "" {
+				delete(g.bound, iv)
+			} else {
+				g.bound[iv] = saved
+			}
+			fn := "verifForall"
+			if id.Name == "exists" {
+				fn = "verifExists"
+			}
+			return fmt.Sprintf("%s(int(%s), int(%s), func(%s int) bool { return %s })", fn, g.expr(n.Args[1]), g.expr(n.Args[2]), iv, body)
+		case "forallR", "forallI", "existsI", "existsR":
+			// bound variables take the values of the skolem constants of the counter-model
+			for _, a := range n.Args[:len(n.Args)-1] {
+				iv := a.(*ast.Ident).Name
+				if _, ok := g.bound[iv]; !ok {
+					g.fail = "no model value for quantified variable " + iv
+					return "false"
+				}
+			}
+			return "(" + g.expr(n.Args[len(n.Args)-1]) + ")"
+		case "ite":
+			return fmt.Sprintf("verifIte(%s, %s, %s)", g.expr(n.Args[0]), g.expr(n.Args[1]), g.expr(n.Args[2]))
+		case "in":
+			var alts []string
+			x := g.expr(n.Args[0])
+			for _, a := range n.Args[1:] {
+				alts = append(alts, "verifEq("+x+", "+g.expr(a)+")")
+			}
+			return "(" + strings.Join(alts, " || ") + ")"
+		case "tan", "sin", "cos", "sqrt":
+			f := map[string]string{"tan": "Tan", "sin": "Sin", "cos": "Cos", "sqrt": "Sqrt"}[id.Name]
+			return fmt.Sprintf("verifMath(math.%s, %s)", f, g.expr(n.Args[0]))
+		case "real":
+			return "float64(" + g.expr(n.Args[0]) + ")"
+		case "fresh", "alloc":
+			return "true"
+		case "typeIs":
+			return fmt.Sprintf("func() bool { _, ok := any(%s).(%s); return ok }()", g.expr(n.Args[0]), g.typeSrc(n.Args[1]))
+		}
+	}
+	var args []string
+	for _, a := range n.Args {
+		args = append(args, g.expr(a))
+	}
+	return g.expr(n.Fun) + "(" + strings.Join(args, ", ") + ")"
+}
+
+const replayHelpers = `
+func verifForall(lo, hi int, p func(int) bool) bool {
+	for i := lo; i < hi; i++ {
+		if !p(i) {
+			return false
+		}
+	}
+	return true
+}
+
+func verifExists(lo, hi int, p func(int) bool) bool {
+	for i := lo; i < hi; i++ {
+		if p(i) {
+			return true
+		}
+	}
+	return false
+}
+
+func verifIte[T any](c bool, a, b T) T {
+	if c {
+		return a
+	}
+	return b
+}
+
+func verifMath[T ~float32 | ~float64](f func(float64) float64, x T) T { return T(f(float64(x))) }
+
+func verifNum(v reflect.Value) (float64, bool) {
+	switch v.Kind() {
+	case reflect.Int, reflect.Int8, reflect.Int16, reflect.Int32, reflect.Int64:
+		return float64(v.Int()), true
+	case reflect.Uint, reflect.Uint8, reflect.Uint16, reflect.Uint32, reflect.Uint64:
+		return float64(v.Uint()), true
+	case reflect.Float32, reflect.Float64:
+		return v.Float(), true
+	}
+	return 0, false
+}
+
+// verifEq is == with a relative tolerance on floating-point components (the proof
+// treats floats as reals; the replay must not report rounding noise).
+func verifEq(a, b any) bool {
+	if a == nil || b == nil {
+		return verifIsNil(a) && verifIsNil(b)
+	}
+	return verifEqV(reflect.ValueOf(a), reflect.ValueOf(b))
+}
+
+func verifIsNil(a any) bool {
+	if a == nil {
+		return true
+	}
+	v := reflect.ValueOf(a)
+	switch v.Kind() {
+	case reflect.Ptr, reflect.Map, reflect.Slice, reflect.Interface, reflect.Func, reflect.Chan:
+		return v.IsNil()
+	}
+	return false
+}
+
+func verifEqV(a, b reflect.Value) bool {
+	if x, ok := verifNum(a); ok {
+		if y, ok := verifNum(b); ok {
+			if a.Kind() == reflect.Float32 || a.Kind() == reflect.Float64 || b.Kind() == reflect.Float32 || b.Kind() == reflect.Float64 {
+				d := math.Abs(x - y)
+				return d <= 1e-4*math.Max(1, math.Max(math.Abs(x), math.Abs(y)))
+			}
+			return x == y
+		}
+	}
+	if a.Kind() == reflect.Interface || b.Kind() == reflect.Interface {
+		if a.Kind() == reflect.Interface {
+			if a.IsNil() {
+				return verifIsNil(b.Interface())
+			}
+			a = a.Elem()
+		}
+		if b.Kind() == reflect.Interface {
+			if b.IsNil() {
+				return false
+			}
+			b = b.Elem()
+		}
+		return verifEqV(a, b)
+	}
+	if a.Type() != b.Type() {
+		if a.Type().ConvertibleTo(b.Type()) {
+			return verifEqV(a.Convert(b.Type()), b)
+		}
+		return false
+	}
+	switch a.Kind() {
+	case reflect.Struct:
+		for i := 0; i < a.NumField(); i++ {
+			if !verifEqV(a.Field(i), b.Field(i)) {
+				return false
+			}
+		}
+		return true
+	case reflect.Array:
+		for i := 0; i < a.Len(); i++ {
+			if !verifEqV(a.Index(i), b.Index(i)) {
+				return false
+			}
+		}
+		return true
+	case reflect.String:
+		return a.String() == b.String()
+	case reflect.Bool:
+		return a.Bool() == b.Bool()
+	case reflect.Ptr, reflect.Map, reflect.Func, reflect.Chan, reflect.UnsafePointer:
+		return a.Pointer() == b.Pointer()
+	case reflect.Slice:
+		if a.IsNil() || b.IsNil() {
+			return a.IsNil() == b.IsNil()
+		}
+		return a.Pointer() == b.Pointer() && a.Len() == b.Len()
+	}
+	return false
+}
+`
+
+// ---------------------------------------------------------------------------
+// replay of one obligation
+
+func (eng *Engine) replay(o *Obligation) (res replayResult) {
+	defer func() {
+		if r := recover(); r != nil {
+			res = replayResult{Note: fmt.Sprintf("replay generator failed: %v", r)}
+		}
+	}()
+	fc := o.fc
+	if fc == nil || fc.fn == nil || fc.lemmaName != "" {
+		return replayResult{Note: "lemma obligations have no code to replay against"}
+	}
+	fn := fc.fn
+	if fn.Parent() != nil {
+		return replayResult{Note: "anonymous functions cannot be called from a test"}
+	}
+	m := &modelQuery{eng: eng, o: o, script: o.Script, cache: map[string]*sx{}}
+	m.preferSmall(fc, fn)
+	lb := &litBuilder{m: m, fc: fc, pkg: fn.Pkg.Pkg, imports: map[string]string{}, ptrVars: map[int64]string{}}
+	names := paramNames(fn)
+	var decl []string
+	inputs := map[string]string{}
+	goNames := map[string]string{}
+	var argNames []string
+	for i, p := range fn.Params {
+		v := fc.params[names[i]]
+		lit := lb.lit(v.T, p.Type(), 0)
+		gn := "in_" + sanitize(names[i])
+		decl = append(decl, lb.decls...)
+		lb.decls = nil
+		decl = append(decl, fmt.Sprintf("var %s %s = %s", gn, lb.typeExpr(p.Type()), lit))
+		inputs[names[i]] = lit
+		goNames[names[i]] = gn
+		argNames = append(argNames, gn)
+	}
+	if m.failed {
+		return replayResult{Note: m.note}
+	}
+	// skolem constants of the goal
+	bound := map[string]string{}
+	for _, sk := range o.Skolems {
+		lit := lb.lit(sk.Term, sk.Ty, 0)
+		gn := "sk_" + sanitize(sk.Name)
+		decl = append(decl, fmt.Sprintf("const %s = %s", gn, lit))
+		bound[sk.Name] = gn
+		inputs["∀"+sk.Name] = lit
+	}
+	// call expression
+	sig := fn.Signature
+	var call string
+	args := argNames
+	if sig.Recv() != nil {
+		call = "(" + args[0] + ")." + fn.Name()
+		args = args[1:]
+	} else {
+		call = fn.Name()
+	}
+	if sig.Variadic() && len(args) > 0 {
+		args[len(args)-1] += "..."
+	}
+	call += "(" + strings.Join(args, ", ") + ")"
+	rn := resultNames(sig)
+	var resVars []string
+	for i := range rn {
+		resVars = append(resVars, fmt.Sprintf("res%d", i))
+	}
+	// postcondition (only for obligations stated at the function boundary)
+	var postSrc string
+	gs := &goSpec{eng: eng, lets: letsOf(fc.contract), bound: bound, pkg: fn.Package(), names: map[string]string{}}
+	for k, v := range goNames {
+		gs.names[k] = v
+	}
+	for i, n := range rn {
+		gs.names[n] = resVars[i]
+		gs.names[fmt.Sprintf("result%d", i)] = resVars[i]
+	}
+	if len(rn) == 1 {
+		gs.names["result"] = resVars[0]
+	}
+	if o.Kind == "ensures" && o.Clause != nil {
+		postSrc = gs.expr(o.Clause)
+		if gs.fail != "" {
+			postSrc = ""
+		}
+	}
+	// imports used by the spec: the package's own import names are available through its files;
+	// we re-import what the contract file imports
+	imports := map[string]string{"fmt": "fmt", "testing": "testing", "reflect": "reflect", "math": "math"}
+	for p, n := range lb.imports {
+		imports[p] = n
+	}
+	if postSrc != "" {
+		for p, n := range eng.contractFileImports(fn.Package()) {
+			if _, ok := imports[p]; !ok {
+				imports[p] = n
+			}
+		}
+	}
+	var src bytes.Buffer
+	fmt.Fprintf(&src, "//go:build verif\n\npackage %s\n\nimport (\n", fn.Pkg.Pkg.Name())
+	var ips []string
+	for p := range imports {
+		ips = append(ips, p)
+	}
+	sort.Strings(ips)
+	for _, p := range ips {
+		fmt.Fprintf(&src, "\t%s %q\n", imports[p], p)
+	}
+	fmt.Fprintf(&src, ")\n\nvar _ = reflect.TypeOf\nvar _ = math.Abs\n")
+	for _, p := range ips {
+		if p == "fmt" || p == "testing" || p == "reflect" || p == "math" {
+			continue
+		}
+		// keep imports used even if the literal did not need them
+		fmt.Fprintf(&src, "var _ = %s.%s\n", imports[p], eng.anyExported(p))
+	}
+	src.WriteString(replayHelpers)
+	fmt.Fprintf(&src, "\nfunc TestVerifReplay(t *testing.T) {\n")
+	for _, d := range decl {
+		fmt.Fprintf(&src, "\t%s\n", d)
+	}
+	for _, a := range argNames {
+		fmt.Fprintf(&src, "\t_ = %s\n", strings.TrimSuffix(a, "..."))
+	}
+
+	fmt.Fprintf(&src, "\tfunc() {\n\t\tdefer func() {\n\t\t\tif r := recover(); r != nil {\n\t\t\t\tfmt.Printf(\"VERIF-REPLAY panic: %%v\\n\", r)\n\t\t\t}\n\t\t}()\n")
+	for i, oe := range gs.olds {
+		fmt.Fprintf(&src, "\t\tverifOld%d := %s\n\t\t_ = verifOld%d\n", i, oe, i)
+	}
+	if len(resVars) > 0 {
+		fmt.Fprintf(&src, "\t\t%s := %s\n", strings.Join(resVars, ", "), call)
+		for _, r := range resVars {
+			fmt.Fprintf(&src, "\t\t_ = %s\n", r)
+		}
+		fmt.Fprintf(&src, "\t\tfmt.Printf(\"VERIF-REPLAY returned: %%#v\\n\", []any{%s})\n", strings.Join(resVars, ", "))
+	} else {
+		fmt.Fprintf(&src, "\t\t%s\n\t\tfmt.Println(\"VERIF-REPLAY returned\")\n", call)
+	}
+	if postSrc != "" {
+		fmt.Fprintf(&src, "\t\tfmt.Printf(\"VERIF-REPLAY post: %%v\\n\", %s)\n", postSrc)
+	}
+	fmt.Fprintf(&src, "\t}()\n}\n")
+
+	res = replayResult{Inputs: inputs, Test: src.String()}
+	if len(lb.approx) > 0 {
+		res.Note = "inputs approximated: " + strings.Join(lb.approx, "; ")
+	}
+	pos := eng.fset.Position(fn.Pos())
+	res.PkgDir = filepath.Dir(pos.Filename)
+	out, err := eng.runReplayTest(res.PkgDir, res.Test)
+	res.Output = out
+	if err != nil && !strings.Contains(out, "VERIF-REPLAY") {
+		res.Note += " | replay test did not run: " + firstLines(out, 6)
+		return res
+	}
+	switch {
+	case strings.Contains(out, "VERIF-REPLAY panic:"):
+		// a panic refutes every no-panic obligation and every postcondition of a nopanic function
+		res.Confirmed = true
+	case strings.Contains(out, "VERIF-REPLAY post: false"):
+		res.Confirmed = true
+	}
+	return res
+}
+
+func (eng *Engine) runReplayTest(pkgDir, test string) (string, error) {
+	dir, err := os.MkdirTemp(eng.tmpdir, "rp")
+	if err != nil {
+		return "", err
+	}
+	tf := filepath.Join(dir, "zz_verif_replay_test.go")
+	os.WriteFile(tf, []byte(test), 0o644)
+	ov := map[string]any{"Replace": map[string]string{filepath.Join(pkgDir, "zz_verif_replay_test.go"): tf}}
+	ovData, _ := json.Marshal(ov)
+	ovf := filepath.Join(dir, "overlay.json")
+	os.WriteFile(ovf, ovData, 0o644)
+	modfile := filepath.Join(eng.tmpdir, "mod", "go.mod")
+	if _, err := os.Stat(modfile); err != nil {
+		os.MkdirAll(filepath.Dir(modfile), 0o755)
+		for _, f := range []string{"go.mod", "go.sum"} {
+			data, _ := os.ReadFile(filepath.Join(eng.repo, f))
+			os.WriteFile(filepath.Join(filepath.Dir(modfile), f), data, 0o644)
+		}
+	}
+	ctx, cancel := context.WithTimeout(context.Background(), 180*time.Second)
+	defer cancel()
+	cmd := exec.CommandContext(ctx, "bash", "-c", fmt.Sprintf("ulimit -v 8000000; cd %q && go test -tags verif -modfile=%q -overlay=%q -vet=off -count=1 -v -timeout 60s -run '^TestVerifReplay$' .", pkgDir, modfile, ovf))
+	cmd.Env = append(os.Environ(), "GOFLAGS=-mod=mod", "GOPROXY=off", "GOSUMDB=off", "GOTOOLCHAIN=local")
+	out, err := cmd.CombinedOutput()
+	return truncate(string(out), 8000), err
+}
+
+// contractFileImports returns the imports of the package's contract file.
+func (eng *Engine) contractFileImports(sp *ssa.Package) map[string]string {
+	out := map[string]string{}
+	pk := eng.pkgByPath[sp.Pkg.Path()]
+	if pk == nil {
+		return out
+	}
+	for i, f := range pk.Syntax {
+		if i < len(pk.CompiledGoFiles) && filepath.Base(pk.CompiledGoFiles[i]) == "zz_verif_contracts.go" {
+			for _, imp := range f.Imports {
+				path := strings.Trim(imp.Path.Value, `"`)
+				name := ""
+				if imp.Name != nil {
+					name = imp.Name.Name
+				} else if ip := pk.Imports[path]; ip != nil {
+					name = ip.Name
+				}
+				if name != "" && name != "_" {
+					out[path] = name
+				}
+			}
+		}
+	}
+	return out
+}
+
+// anyExported returns the name of some exported member of the package (to keep an import used).
+func (eng *Engine) anyExported(path string) string {
+	pk := eng.pkgByPath[path]
+	if pk == nil || pk.Types == nil {
+		return "X"
+	}
+	names := pk.Types.Scope().Names()
+	for _, n := range names {
+		obj := pk.Types.Scope().Lookup(n)
+		if !obj.Exported() {
+			continue
+		}
+		switch obj.(type) {
+		case *types.Func, *types.Var, *types.Const:
+			return n
+		}
+	}
+	return "X"
+}
+
+// replayFile re-runs the test stored in a replay file against the current tree.
+func replayFile(path, repo string) int {
+	data, err := os.ReadFile(path)
+	if err != nil {
+		fmt.Fprintln(os.Stderr, err)
+		return 2
+	}
+	var rp struct {
+		Property   string        `json:"property"`
+		Obligation string        `json:"obligation"`
+		Replay     *replayResult `json:"replay"`
+	}
+	if err := json.Unmarshal(data, &rp); err != nil {
+		fmt.Fprintln(os.Stderr, err)
+		return 2
+	}
+	if rp.Replay == nil || rp.Replay.Test == "" {
+		fmt.Printf("replay file %s names obligation %s; it carries no executable counterexample (see solver_output)\n", path, rp.Obligation)
+		return 0
+	}
+	tmp, _ := os.MkdirTemp("", "gowp-replay")
+	defer os.RemoveAll(tmp)
+	eng := &Engine{repo: repo, tmpdir: tmp}
+	out, _ := eng.runReplayTest(rp.Replay.PkgDir, rp.Replay.Test)
+	fmt.Println(out)
+	if strings.Contains(out, "VERIF-REPLAY panic:") || strings.Contains(out, "VERIF-REPLAY post: false") {
+		fmt.Printf("VIOLATION property=%s replay=%s\n", rp.Property, path)
+		return 1
+	}
+	return 0
+}
